@@ -49,7 +49,30 @@ def base_inputs(rnd, n):
             groups.append({"B1": rnd.choice(tied), "B2": rnd.choice(tied), "B3": rnd.choice(res[1])})
         else:
             groups.append({"B1": rnd.choice(res[0]), "B2": rnd.choice(res[1]), "B3": rnd.choice(res[2])})
-    return groups, stats
+    # a from-date inside a year, the later asset's taxable events of that year all before it, the earlier asset with one on or after it: what
+    # the shared sheets say about the later asset (its Summary lines and their links) must not depend on the earlier asset being processed
+    from .ledger import day_of  # pylint: disable=import-outside-toplevel
+    from .rp2api import BASE_DATE  # pylint: disable=import-outside-toplevel
+    from datetime import timedelta  # pylint: disable=import-outside-toplevel
+
+    def taxable_days(h):
+        d = {}
+        for x in h:
+            if x["cls"] == "out" or (x["cls"] == "intra" and x["fee"] > 0) or x["type"] in ("interest", "airdrop", "hardfork", "income", "mining", "staking", "wages"):
+                d.setdefault((BASE_DATE + timedelta(days=day_of(x))).year, []).append(day_of(x))
+        return d
+    fromday = {}
+    tries = 0
+    while len(fromday) < max(2, n // 4) and tries < 20000:
+        tries += 1
+        a, b = rnd.choice(res[0]), rnd.choice(res[0])
+        ta, tb = taxable_days(a), taxable_days(b)
+        ys = [y for y in tb if y in ta and max(ta[y]) > max(tb[y])]
+        if ys:
+            y = rnd.choice(ys)
+            fromday[len(groups)] = rnd.randint(max(tb[y]) + 1, max(ta[y]))
+            groups.append({"B1": a, "B2": b, "B3": rnd.choice(res[1])})
+    return groups, stats, fromday
 
 
 def run(tier):
@@ -57,7 +80,7 @@ def run(tier):
     timer = common.Timer()
     rnd = random.Random(common.seed() * 7919 + 17)
     q = tier == "quick"
-    groups, genstats = base_inputs(rnd, 12 if q else 80)
+    groups, genstats, fromday = base_inputs(rnd, 12 if q else 80)
     jobs, index = [], []
     for gi, assets in enumerate(groups):
         country = ["us", "generic", "us", "generic", "jp", "ie", "generic", "us"][gi % 8] if gi % 16 != 15 else "es"
@@ -68,6 +91,7 @@ def run(tier):
             method = ["hifo", "lofo"][(gi // 4) % 2]       # (equal prices: the sort key's tie-breakers decide)
         base = {"kind": "cli", "country": country, "args": {"method": method, "lang": "en" if country == "jp" else None, "from": None, "to": None, "neg": False},
                 "assets": assets, "conc": {"U": "0.5", "P": "10", "sheet": {}}, "sched": None, "mode": "fork", "observe": ["computed"]}
+        base["args"]["from"] = fromday.get(gi)
         variants = [("base", True, base), ("repeat", True, copy.deepcopy(base))]
         # (seeds 2, 3 and 7 iterate the set {"B1", "B2", "B3"} in three different orders, all different from seed 0 under which the base run is made)
         for seed in ([2, 3, 7] if q else [1, 2, 3, 7, 12345, 4294967295]):
@@ -111,6 +135,7 @@ def run(tier):
             if f.endswith("_rp2_full_report.ods"):
                 for a in (r.get("computed") or {}):
                     own[a] = "|".join(d for n, d in sorted(v.get("sheets", {}).items()) if n.startswith(a + " ") or n.endswith(" " + a) or f"_{a} " in n or n.startswith(f"__test_{a} "))
+                    own[a] += "|lines:" + v.get("asset_lines", {}).get(a, "")      # what the shared sheets (Summary) say about this asset
         return {"exit": r["exit"], "computed": r.get("computed") or {}, "digests": {f: v["digest"] for f, v in sorted(r.get("odsinfo", {}).items())}, "own_sheets": own}
 
     traces = []
